@@ -213,6 +213,11 @@ func replay(o *common.Opts) int {
 		}
 		if res.Violation != nil {
 			fmt.Printf("c15: replay attempt %d reproduces: %s at step %d: %s\n", a, res.Violation.Invariant, res.Violation.Step, res.Violation.Detail)
+			if os.Getenv("RAFTSIM_LOGS") != "" {
+				for _, l := range res.Final {
+					fmt.Println(l)
+				}
+			}
 			common.Violation(prop, o.Replay)
 			return common.ExitViolation
 		}
